@@ -142,7 +142,7 @@ func (c *checker) spaceB() {
 					b := &builder{iv: v.iv}
 					w, in := w, in
 					body := sk.build(b, func(b *builder) []*node { return one(w.build(b, in.build)) })
-					c.doc(docCase{desc: desc, body: body, st: v.st, fr: v.fr, nontrivial: true, deep: ii == 0 && vi == 0 && (thorough || wi < len(structWrappers)+len(mixedWrappers) || sk.name == "body")})
+					c.doc(docCase{desc: desc, body: body, st: v.st, fr: v.fr, nontrivial: true, loose: sk.loose, deep: ii == 0 && vi == 0 && (thorough || wi < len(structWrappers)+len(mixedWrappers) || sk.name == "body")})
 				}
 			}
 		}
@@ -222,9 +222,9 @@ func pairAlphabet(thorough bool) []wrapper {
 func (c *checker) spaceC() {
 	thorough := c.e.Thorough()
 	ws := pairAlphabet(thorough)
-	skels := []string{"body", "wrapdiv", "div+p", "div>div", "article+p"}
+	skels := []string{"body", "wrapdiv", "div+p", "div>div", "article+p", "only-div", "loose-div-before"}
 	if thorough {
-		skels = append(skels, "wrapmain", "body-first-last", "between-lists")
+		skels = append(skels, "wrapmain", "body-first-last", "between-lists", "only-section", "only-article", "wrapdiv-only", "loose-div-after", "loose-div-span")
 	}
 	for _, skn := range skels {
 		var sk skeleton
@@ -254,7 +254,7 @@ func (c *checker) spaceC() {
 							return []*node{w1.build(b, pInner), w2.build(b, pInner)}
 						}
 					}
-					c.doc(docCase{desc: desc, body: sk.build(b, mid), st: styles[0], fr: frames[0], nontrivial: true, deep: thorough && skn == "body"})
+					c.doc(docCase{desc: desc, body: sk.build(b, mid), st: styles[0], fr: frames[0], nontrivial: true, loose: sk.loose, deep: thorough && skn == "body"})
 				}
 			}
 		}
